@@ -40,6 +40,9 @@ type concCfg struct {
 	Closer2   string `json:"closer2"`   // a second, concurrent closer: close | closenow | ""
 	WriteCap  int    `json:"writecap"`  // transport buffer for library writes (0 = unbounded)
 	Yield     bool   `json:"yield"`     // Gosched at hooks
+	// Stretch: whoever logs this hook event on this connection is held there for StretchUS microseconds (ws.Stretch)
+	Stretch   string `json:"stretch,omitempty"`
+	StretchUS int    `json:"stretch_us,omitempty"`
 }
 
 type wireLine struct {
@@ -341,6 +344,10 @@ func runConc(cfg concCfg, rep *Report, tr *ws.Tracer) *concRun {
 	}
 	r.logWire(wireLine{Ev: "WireReset", Role: role, Flate: ws.Mode(cfg.Mode).Flate()})
 	ws.LogPeerScripted(c)
+	if cfg.Stretch != "" {
+		ws.Stretch(c, cfg.Stretch, time.Duration(cfg.StretchUS)*time.Microsecond)
+		defer ws.Unstretch(c)
+	}
 	raw.In.Cap = cfg.WriteCap
 	raw.Out.ChunkFn = func() int { return 1 + rand.Intn(64) }
 	go r.peerLoop(rand.New(rand.NewSource(cfg.Seed + 1)))
@@ -658,6 +665,9 @@ func genConcCfg(seed int64, i int) concCfg {
 	if rng.Intn(3) == 0 {
 		cfg.Threshold = 1 + rng.Intn(300)
 	}
+	if rng.Intn(3) == 0 {
+		cfg.Stretch, cfg.StretchUS = ws.StretchPoints[rng.Intn(len(ws.StretchPoints))], 50+rng.Intn(800)
+	}
 	if cfg.Closer == "policy" {
 		cfg.Reader = "closeread"
 	}
@@ -690,6 +700,7 @@ func init() {
 				if e.A&1 == 0 && (e.G+int64(len(e.Ev)))%3 == 0 {
 					runtime.Gosched()
 				}
+				ws.StretchGate(e)
 			}
 		}
 		sem := make(chan struct{}, *par)
